@@ -446,6 +446,10 @@ def ff_faults(lines, owner):
                         new[pos] = tok + ' {"order": %s}' % other
                         yield 'prefix-order-contradiction', idx, lines[:idx] + [' '.join(new)] + lines[idx + 1:]
                     break
+            if top == 'link' and section == 'bonds':
+                # an atom mentioned only once, so that no other mention of it can expose the contradiction
+                for other in ('2', '0', '-1', '"<"'):
+                    yield 'prefix-order-contradiction', idx, lines[:idx + 1] + ['BB +ZZ {"order": %s} 1 0.3' % other] + lines[idx + 1:]
             if section in ('bonds', 'angles'):
                 yield 'wrong-atom-count', idx, lines[:idx] + [tokens[0] + ' -- 1 0.2'] + lines[idx + 1:]
 
